@@ -15,7 +15,7 @@ TraceFile == IF "TRACE" \in DOMAIN IOEnv THEN IOEnv.TRACE ELSE "trace.ndjson"
 TraceLog == ndJsonDeserialize(TraceFile)
 
 VARIABLES G,      \* [p, q, g]
-          cfg,    \* [np, w, hb]  players, type bits, hash bits
+          cfg,    \* [np, w, hb, kind, eb]  players, type bits, hash bits, kind of group object, exponent bits (qr)
           pl,     \* pl[i] = [x, hi, h, hj, d, X, fp]  key share, own key, common key, stored foreign keys,
                   \*         decryption accumulator, ghost: sum of the shares behind h, fingerprint id of hi
           fps,    \* fingerprints seen: set of <<key, id>>
@@ -80,19 +80,34 @@ CPProve(h, x, y, gg, hh, om, alpha, msg) ==
   /\ Asked(ES(<<G.p, G.q, G.g, h, Exp(G, gg, om), Exp(G, hh, om), x, y, gg, hh>>), msg[1])
   /\ msg[2].sg >= 0 /\ msg[2].sm = SchnorrResp(G, om, msg[1].mq, alpha)
 
-TInit == /\ l = 1 /\ G = [p |-> 23, q |-> 11, g |-> 2] /\ cfg = [np |-> 0, w |-> 1, hb |-> 256]
+TInit == /\ l = 1 /\ G = [p |-> 23, q |-> 11, g |-> 2] /\ cfg = [np |-> 0, w |-> 1, hb |-> 256, kind |-> "plain", eb |-> 0]
          /\ pl = <<>> /\ fps = {}
 
 TReset ==
   /\ IsEv("Reset") /\ NoExc
   /\ G' = [p |-> Ev.grp[1], q |-> Ev.grp[2], g |-> Ev.grp[3]]
-  /\ cfg' = [np |-> Ev.np, w |-> Ev.w, hb |-> Ev.hbits]
+  /\ cfg' = [np |-> Ev.np, w |-> Ev.w, hb |-> Ev.hbits, kind |-> Ev.kind, eb |-> Ev.E]
   /\ pl' = [i \in 0..(Ev.np - 1) |-> [x |-> 0, hi |-> 1, h |-> 1, hj |-> {}, d |-> 0, X |-> 0, fp |-> ""]]
   /\ fps' = {}
   \* CheckGroup of the library agrees with the definition of a Schnorr group (sizes are met by construction)
-  /\ LET p == Ev.grp[1]  q == Ev.grp[2]  g == Ev.grp[3]  k == Ev.grp[4] IN
-     Ev.okgrp = (/\ p = k * q + 1 /\ IsPrime(p) /\ IsPrime(q) /\ GCD(q, k) = 1
-                 /\ g > 1 /\ g < p - 1 /\ PowM(g, q, p) = 1)
+  /\ LET p == Ev.grp[1]  q == Ev.grp[2]  g == Ev.grp[3]  k == Ev.grp[4]
+         Schnorr == /\ p = k * q + 1 /\ IsPrime(p) /\ IsPrime(q) /\ GCD(q, k) = 1
+                    /\ g > 1 /\ g < p - 1 /\ PowM(g, q, p) = 1
+         \* verifiably derived generator: candidates H(U_0)^k, H(U_1)^k, ... in the order asked; the first one
+         \* that generates the subgroup is the generator, and no further candidate is asked for
+         Cand(j) == PowM(Ev.h[j].out.mp, k, p)
+         Good(c) == c > 1 /\ c < p - 1 /\ PowM(c, q, p) = 1
+         Derived == /\ Len(Ev.h) >= 1
+                    /\ \A j \in 1..(Len(Ev.h) - 1) : ~Good(Cand(j))
+                    /\ Good(Cand(Len(Ev.h))) /\ Cand(Len(Ev.h)) = g
+     IN CASE Ev.kind = "plain" -> Ev.okgrp = Schnorr
+          [] Ev.kind = "canon" -> Schnorr /\ Ev.okgrp /\ Derived      \* the library generated this group itself
+          \* quadratic residues modulo a safe prime p = 7 mod 8 (2 is a residue); the generator 2 is shifted by
+          \* |p| - E squarings so that exponents of E bits suffice [KK04]; exponents are never longer than |p|
+          [] Ev.kind = "qr" -> Ev.okgrp = (/\ k = 2 /\ p = 2 * q + 1 /\ IsPrime(p) /\ IsPrime(q) /\ p % 8 = 7
+                                          /\ Ev.E <= BitLen(p)
+                                          /\ g = PowM(2, 2 ^ (BitLen(p) - Ev.E), p)
+                                          /\ g > 1 /\ g < p - 1 /\ PowM(g, q, p) = 1)
   /\ l' = l + 1
 
 TGenKey ==
@@ -166,7 +181,12 @@ TOpen ==
   /\ UNCHANGED <<G, cfg, pl, fps>> /\ l' = l + 1
 
 \* the masking value is the first draw outside {0,1}; exactly that many draws are made
-MaskCoin == LET k == FirstGood(QDraws, 1) IN IF k > 0 /\ k = Len(QDraws) THEN QDraws[k] ELSE -1
+\* (quadratic-residue class with shortened exponents: the draws are E-bit integers, not residues modulo q)
+ShortExp == cfg.kind = "qr" /\ cfg.eb < BitLen(G.p)
+MaskCoin == LET k == FirstGood(QDraws, 1) IN
+            IF k > 0 /\ k = Len(QDraws) /\ (\A j \in 1..Len(QCoins) : ("short" \in DOMAIN QCoins[j]) = ShortExp)
+                     /\ (ShortExp => QDraws[k] < 2 ^ cfg.eb) /\ (~ShortExp => QDraws[k] < G.q)
+            THEN QDraws[k] ELSE -1
 
 TPriv ==
   /\ IsEv("Priv") /\ NoExc
